@@ -300,13 +300,14 @@ def _guarded(fn, arg, seconds=30):
 
     def on_alarm(signum, frame):
         raise _Hang()
-    old = signal.signal(signal.SIGALRM, on_alarm)
-    signal.setitimer(signal.ITIMER_REAL, seconds)
+    # (processor time of this worker, not wall-clock time: a busy machine must not look like a loop that never ends)
+    old = signal.signal(signal.SIGPROF, on_alarm)
+    signal.setitimer(signal.ITIMER_PROF, seconds)
     try:
         return fn(arg)
     finally:
-        signal.setitimer(signal.ITIMER_REAL, 0)
-        signal.signal(signal.SIGALRM, old)
+        signal.setitimer(signal.ITIMER_PROF, 0)
+        signal.signal(signal.SIGPROF, old)
 
 
 def run_case(job):
